@@ -13,11 +13,15 @@ from program import load_config, subst, ty_str, is_adt, prim, AnchorMissing, loc
 import sim as S
 import streamkit as K
 
-OPS2 = {"Add": "add", "Sub": "sub", "Mul": "mul", "Div": "div"}
-OPSA = {"AddAssign": "add_assign", "SubAssign": "sub_assign", "MulAssign": "mul_assign", "DivAssign": "div_assign"}
+# every binary / assign operator trait of core::ops: the timestamp rule holds for "every operator form", including forms added later
+OPS2 = {"Add": "add", "Sub": "sub", "Mul": "mul", "Div": "div", "Rem": "rem", "BitAnd": "bitand", "BitOr": "bitor", "BitXor": "bitxor", "Shl": "shl", "Shr": "shr"}
+OPSA = {"AddAssign": "add_assign", "SubAssign": "sub_assign", "MulAssign": "mul_assign", "DivAssign": "div_assign", "RemAssign": "rem_assign",
+        "BitAndAssign": "bitand_assign", "BitOrAssign": "bitor_assign", "BitXorAssign": "bitxor_assign", "ShlAssign": "shl_assign", "ShrAssign": "shr_assign"}
 OPS1 = {"Neg": "neg", "Not": "not"}
-OPNAME = {"Add": "Add", "Sub": "Sub", "Mul": "Mul", "Div": "Div", "AddAssign": "Add", "SubAssign": "Sub", "MulAssign": "Mul",
-          "DivAssign": "Div", "Neg": "Neg", "Not": "Not"}
+OPNAME = {"Neg": "Neg", "Not": "Not"}
+for _t in list(OPS2):
+    OPNAME[_t] = _t
+    OPNAME[_t + "Assign"] = _t
 
 
 def rel_allowed(sim, st, a, b):
